@@ -216,10 +216,15 @@ def Expr.keyed (ps : List Nat) (x : Nat) : Expr → Bool
   | .const _ => true
   | .un _ k a => if !(a.atom ps) then a.keyed ps x else (k != some x || a == .var x)
   | .bin _ k1 a k2 b =>
-    (if !(a.atom ps) then a.keyed ps x else (k1 != some x || a == .var x)) &&
-    (if !(b.atom ps) then b.keyed ps x else (k2 != some x || b == .var x)) &&
-    -- two operands under the same key are one object
-    (!(k1 == some x && k2 == some x) || a == b)
+    -- `replace` visits the object under the key `x` when there is one, both operands otherwise
+    if k1 == some x then
+      (if !(a.atom ps) then a.keyed ps x else a == .var x) &&
+      -- two operands under the same key are one object
+      (k2 != some x || a == b)
+    else if k2 == some x then
+      (if !(b.atom ps) then b.keyed ps x else b == .var x)
+    else
+      (a.atom ps || a.keyed ps x) && (b.atom ps || b.keyed ps x)
   | .call _ k a => if !(a.atom ps) then a.keyed ps x else (k != some x || a == .var x)
 
 def Stmt.keyed (ps : List Nat) (x : Nat) : Stmt → Bool
@@ -235,32 +240,63 @@ def deadAfter (x : Nat) : List Stmt → Bool
 
 def stmtsAfter (ins : Ins) (loc : Int) : List Stmt := (ins.filter (fun e => loc < e.1)).map (·.2)
 
-/-- The condition under which one change of the pass is justified by `Proof/Propagate.lean`:
-    the definition `x := e` at `loc` is live and before `i`; `e` is pure and does not read `x`; no live
-    instruction in `[loc+1, i)` assigns `x` or a register of `e`; the replacement only overwrites
-    occurrences of `x`; and when the definition is then deleted, `x` is dead after it. -/
-def safeStep (ps : List Nat) (ins : Ins) (i : Int) (x : Nat) (loc : Int) (e : Expr) (removes : Bool)
-    (ins' : Ins) : Bool :=
-  ins.at loc == some (.assign (some x) e) && loc < i &&
-  e.pure && !(e.vars.contains x) &&
-  (ins.all fun s => !(loc < s.1 && s.1 < i) ||
-    (match s.2.lhs with
-     | some l => l != x && !(e.vars.contains l)
-     | none => true)) &&
-  (match ins.at i with
-   | some s => s.keyed ps x
-   | none => false) &&
-  (!removes || deadAfter x (stmtsAfter ins' loc)) &&
-  -- locations are increasing along the list
-  (ins.map (·.1)).Pairwise (· < ·)
-
 def Ins.setAt (ins : Ins) (i : Int) (s : Stmt) : Ins :=
   ins.map fun e => if e.1 == i then (e.1, s) else e
 
 def Ins.removeAt (ins : Ins) (loc : Int) : Ins := ins.filter fun e => e.1 != loc
 
+/-- the one change the pass makes to the instruction list: `ins.replace(var, orig_ins.get_rhs())` on the
+    instruction `cur` at `i`, then `graph.remove_ins(loc)` when the definition has no use left -/
+def stepIns (ps : List Nat) (ins : Ins) (i : Int) (x : Nat) (loc : Int) (e : Expr) (cur : Stmt)
+    (removes : Bool) : Ins :=
+  if removes then (ins.setAt i (cur.repl ps x e)).removeAt loc else ins.setAt i (cur.repl ps x e)
+
+/-- `a < b < c ...` -/
+def increasing : List Int → Bool
+  | [] => true
+  | a :: l => l.all (a < ·) && increasing l
+
+/-- The condition under which one change of the pass is justified by `Proof/PropagateSound.lean`:
+    the definition `x := e` at `loc` is live and before `i`; `e` is pure and does not read `x`; no live
+    instruction in `[loc+1, i)` assigns `x` or a register of `e`; the replacement only overwrites
+    occurrences of `x`; and when the definition is then deleted, `x` is dead after it. -/
+def safeStep (ps : List Nat) (ins : Ins) (i : Int) (x : Nat) (loc : Int) (e : Expr) (cur : Stmt)
+    (removes : Bool) : Bool :=
+  ins.at loc == some (.assign (some x) e) && ins.at i == some cur && decide (loc < i) &&
+  e.pure && !(e.vars.contains x) &&
+  (ins.all fun s => !(decide (loc < s.1) && decide (s.1 < i)) ||
+    (match s.2.lhs with
+     | some l => l != x && !(e.vars.contains l)
+     | none => true)) &&
+  cur.keyed ps x &&
+  (!removes || deadAfter x (stmtsAfter (ins.setAt i (cur.repl ps x e)) loc)) &&
+  -- locations are increasing along the list
+  increasing (ins.map (·.1))
+
 /-- `list.remove(x)`: the first occurrence -/
 def rem1 (l : List Int) (x : Int) : List Int := l.erase x
+
+/-- the chain updates after `ins.replace(var, orig_ins.get_rhs())`: (ud, du, whether `du[var, loc]` became empty) -/
+def chainStep (i : Int) (var : Nat) (loc : Int) (origUsed : List Nat) (ud du : Chain) : Chain × Chain × Bool :=
+  let udvi := rem1 (ud.get (var, i)) loc
+  let ud1 := if udvi.isEmpty then ud.pop (var, i) else ud.set (var, i) udvi
+  let (ud2, du2) := origUsed.foldl (fun (acc : Chain × Chain) v2 =>
+    let (ud, du) := acc
+    if !(ud.has (v2, loc)) then acc else
+    let old := ud.get (v2, loc)
+    let ud := ud.set (v2, i) (ud.get (v2, i) ++ old)
+    let ud := ud.pop (v2, loc)
+    let du := old.foldl (fun du d => du.set (v2, d) (rem1 (du.get (v2, d)) loc ++ [i])) du
+    (ud, du)) (ud1, du)
+  let newDu := rem1 (du2.get (var, loc)) i
+  let removes := newDu.isEmpty
+  (ud2, if removes then du2.pop (var, loc) else du2.set (var, loc) newDu, removes)
+
+/-- from `ins.replace(var, orig_ins.get_rhs())` to `graph.remove_ins(loc)` -/
+def applyStep (ps : List Nat) (i : Int) (st : St) (var : Nat) (loc : Int) (orig cur : Stmt) : St :=
+  let r := chainStep i var loc orig.used st.ud st.du
+  { ins := stepIns ps st.ins i var loc orig.rhs cur r.2.2, ud := r.1, du := r.2.1, change := st.change || r.2.2,
+    ok := st.ok && safeStep ps st.ins i var loc orig.rhs cur r.2.2 }
 
 /-- the body of `for var in ins.get_used_vars():` for the instruction at `i` -/
 def varStep (ps : List Nat) (i : Int) (st : St) (var : Nat) : St :=
@@ -269,32 +305,11 @@ def varStep (ps : List Nat) (i : Int) (st : St) (var : Nat) : St :=
     if loc < 0 then st else
     match st.ins.at loc, st.ins.at i with
     | some orig, some cur =>
-      let rhs := orig.rhs
-      let origUsed := orig.used
-      let okNonConst :=
-        rhs.isConst ps ||
-        (!((st.du.get (var, loc)).length > 1) &&
-         origUsed.all fun v2 => clearPath st.ins (some v2) (loc + 1) i)
-      if !okNonConst then st else
+      if !(orig.rhs.isConst ps ||
+           (!((st.du.get (var, loc)).length > 1) &&
+            orig.used.all fun v2 => clearPath st.ins (some v2) (loc + 1) i)) then st else
       if orig.se && !(clearPath st.ins none (loc + 1) i) then st else
-      let cur' := cur.repl ps var rhs
-      let ins1 := st.ins.setAt i cur'
-      let udvi := rem1 (st.ud.get (var, i)) loc
-      let ud1 := if udvi.isEmpty then st.ud.pop (var, i) else st.ud.set (var, i) udvi
-      let (ud2, du2) := origUsed.foldl (fun (acc : Chain × Chain) v2 =>
-        let (ud, du) := acc
-        if !(ud.has (v2, loc)) then acc else
-        let old := ud.get (v2, loc)
-        let ud := ud.set (v2, i) (ud.get (v2, i) ++ old)
-        let ud := ud.pop (v2, loc)
-        let du := old.foldl (fun du d => du.set (v2, d) (rem1 (du.get (v2, d)) loc ++ [i])) du
-        (ud, du)) (ud1, st.du)
-      let newDu := rem1 (du2.get (var, loc)) i
-      let removes := newDu.isEmpty
-      let ins2 := if removes then ins1.removeAt loc else ins1
-      let du3 := if removes then du2.pop (var, loc) else du2.set (var, loc) newDu
-      { ins := ins2, ud := ud2, du := du3, change := st.change || removes,
-        ok := st.ok && safeStep ps st.ins i var loc rhs removes ins2 }
+      applyStep ps i st var loc orig cur
     | _, _ => st
   | _ => st
 
